@@ -54,12 +54,13 @@ theorem foreign_ok_correct (mark : T) (np : NP) (rel : Path) (outa : T) (tid : N
 STATUS of `trace_correct`: proved below (section "the full theorems") for every pair of trees meeting the decidable side
 condition `wfN mark edited` (defined in `Pfst/Reconcile.lean`, evaluated by the driver on every case as `wf`): every
 in-tree origin names a node of the marked tree of the same kind and field shapes, tree ids of other trees are `≠ 0`,
-primitives that are `==` to the marked value are identical (`primOK`, finding F1), list elements are not lists, and the
+list elements are not lists, and the
 `pair` pseudo nodes of a `Dict` (mode 2) have one kind, a key that is a node or `None`, and an origin consistent with key and
 value (`wfPs` / `pairCons`: what `recurse_slice_dict` reads off `values[i].f` and `keys[i].f`).
 The earlier partial results are kept: the case of a node whose fields are all scalars (`trace_correct_partial`), the
-wholesale cases (`foreign_ok_correct`, `fallback_overrides`), the frame law (`frame`), and the negation of the
-unconditional statement (`trace_correct_false`).
+wholesale cases (`foreign_ok_correct`, `fallback_overrides`), the frame law (`frame`).  Since the repair of finding F1
+(`recurse_children` compares value AND type) no hypothesis about primitives is left: the comparison is exact (`pyNe_exact`)
+and the former counterexample `1 -> True` is an instance of the theorem (`conflation_seen`).
 -/
 
 /-- `recurse_children` on scalar fields: after the emitted `setPrim`s the fields are the edited ones, provided Python `==`
@@ -116,15 +117,11 @@ theorem trace_correct_partial (mark : T) (np : NP) (rel : Path) (l : Option Loc)
   simp only [recNode, hin, Bool.not_true, T.isNode, T.kids, hf, if_false, Bool.false_eq_true, List.nil_append]
   exact ha
 
-/-- `trace_correct` WITHOUT the exactness hypothesis is false of the code: `1 -> True` (same `==` class, other identity)
-emits no operation and the result keeps the old constant (finding C13-F1). -/
-theorem trace_correct_false :
-    ∃ mark edited : T, (reconcile mark edited).fail = false ∧ reconcileOps mark edited = [] ∧
-      result mark edited ≠ erase edited := by
-  refine ⟨.node (.tree none) 1 [.prim ⟨0, 0⟩], .node (.tree none) 1 [.prim ⟨0, 1⟩], by rfl, by rfl, ?_⟩
-  have h : result (.node (.tree none) 1 [.prim ⟨0, 0⟩]) (.node (.tree none) 1 [.prim ⟨0, 1⟩]) = .node .new 1 [.prim ⟨0, 0⟩] := by rfl
-  rw [h]
-  simp [erase, eraseL]
+/-- The repaired comparison `child != o or child.__class__ is not o.__class__` is exact: a scalar that does not differ from
+what the output tree holds IS what the output tree holds.  (Before the repair this was the hypothesis `primOK` of
+`trace_correct`, false for `1` / `True` / `1.0`: finding C13-F1.) -/
+theorem pyNe_exact (c ok : T) (hsc : scalar c = true) (h : pyNe c ok = false) : c = ok :=
+  pyNe_false_eq c ok hsc h
 
 theorem pyNe_self (c : T) (h : scalar c = true) : pyNe c c = false := by
   cases c <;> simp_all [scalar, pyNe]
@@ -151,19 +148,9 @@ theorem untouched_silent (mark : T) (np : NP) (rel : Path) (l : Option Loc) (k :
 STATUS of `no_change` / `untouched_kept`: proved below (section "the full theorems") with the decidable predicates
 `stillN` (subtree in place and unchanged), `keptN` and `touches` (all defined in `Pfst/Reconcile.lean`; proofs in
 `Pfst/ReconcileQuiet.lean`, `Pfst/ReconcileKept.lean`).
-`no_change` without the restriction of `stillN` to node-only lists is false of the code: `None` / `str` elements of list
-fields under an in-tree parent (`Global.names`, `arguments.kw_defaults`) are re-put on every reconcile
-(`no_change_false`, finding F8).
+Since the repair of finding F8 (`recurse_node` leaves an unchanged `None` / identifier list element alone) `stillN` covers
+list fields holding scalars too (`Global.names`, `arguments.kw_defaults`): see `no_change_scalar_elems` below.
 -/
-
-/-- `global a` unchanged: the trace is not empty (the identifier is put again; harmless for the source, observed in the real
-trace as `put('a', 0, None, 'names')`). -/
-theorem no_change_false :
-    ∃ mark : T, reconcileOps mark mark ≠ [] := by
-  refine ⟨.node (.tree none) 5 [.many none 1 [.prim ⟨3, 3⟩]], ?_⟩
-  have h : (reconcileOps (.node (.tree none) 5 [.many none 1 [.prim ⟨3, 3⟩]])
-      (.node (.tree none) 5 [.many none 1 [.prim ⟨3, 3⟩]])).length = 1 := by rfl
-  intro h2; rw [h2] at h; simp at h
 
 /-- Rounds: the tree returned by one round is the marked copy of the next.  If every round replays to its edited structure
 (the conclusion of `trace_correct` for that round) then after any number of mark / mutate / reconcile rounds the structure
@@ -275,9 +262,8 @@ theorem dict_correct (mark : T) (q : Path) (fi : Nat) (s : Option Nat) (pk : Nat
 
 /-- TARGET 1, `trace_correct`: for every pair of trees meeting `wfN` (see the STATUS comment above), if the exception does
 not leave `reconcile()`, replaying the operation trace on the structure of the marked copy yields exactly the structure of
-the edited tree.  For an in-tree root the `fail` hypothesis always holds (`intree_never_fails`).  The only trees outside
-`wfN` met in the correspondence runs are those of finding F1 (`primOK` false); for them the conclusion is evaluated per case
-by the driver (`res_ok`) and is false (`trace_correct_false`). -/
+the edited tree.  For an in-tree root the `fail` hypothesis always holds (`intree_never_fails`).  `wfN` says nothing about primitive values any more
+(repair of F1): every pair of trees the serialiser produces from AST classes with fixed `_fields` meets it. -/
 theorem trace_correct (mark edited : T) (wf : wfN mark edited = true) (h : (reconcile mark edited).fail = false) :
     result mark edited = erase edited :=
   recNode_ok mark edited .none [] (erase mark) wf (Or.inr (by simp [slot, NP.base, markAt_nil])) h
@@ -377,18 +363,34 @@ example : applyOps (recSliceGo m3 (.fst 0 []) 0 (some 0) false 0 {} (eraseL [st 
       (.many (some 0) 1 (eraseL [st 0, st 1, st 2])) = .many (some 0) 1 (eraseL [st 2, newSt 40, st 0]) :=
   slice_correct m3 [] 0 (some 0) [st 0, st 1, st 2] [st 2, newSt 40, st 0] (by rfl) (by decide) (by decide)
 
-/-- the side condition matters: without `primOK` the witness of `trace_correct_false` is excluded -/
-example : wfN (.node (.tree none) 1 [.prim ⟨0, 0⟩]) (.node (.tree none) 1 [.prim ⟨0, 1⟩]) = false := by decide
+/-- the former witness of `trace_correct_false` (`1 -> True`: same `==` class, other type) is now inside `wfN`, the change
+is seen (one `setPrim`) and the trace replays to the edited tree -/
+theorem conflation_seen :
+    wfN (.node (.tree none) 1 [.prim ⟨0, 0⟩]) (.node (.tree none) 1 [.prim ⟨0, 1⟩]) = true ∧
+    (reconcileOps (.node (.tree none) 1 [.prim ⟨0, 0⟩]) (.node (.tree none) 1 [.prim ⟨0, 1⟩])).length = 1 ∧
+    result (.node (.tree none) 1 [.prim ⟨0, 0⟩]) (.node (.tree none) 1 [.prim ⟨0, 1⟩])
+      = erase (.node (.tree none) 1 [.prim ⟨0, 1⟩]) :=
+  ⟨by decide, by decide, trace_correct _ _ (by decide) (by decide)⟩
 
-/-- `no_change`: the marked tree itself (tagged in place), and a copy whose identifier is `==` but not identical -/
+/-- `no_change`: the marked tree itself (tagged in place) -/
 example : stillN m3 .none [] m3 = true := by decide
 example : reconcile m3 m3 = ⟨[], false⟩ := no_change m3 m3 (by decide)
-example : reconcileOps m3 (modl (.tree none) [assign (loc [] 0 (some 0)) (name (loc [0, 0] 0) 10)
-      (.node (loc [0, 0] 1) 1 [.prim ⟨11, 77⟩]), st 1, st 2]) = [] :=
-  no_change_ops m3 _ (by decide)
-/-- the quirk is excluded by `stillN` (`no_change_false`) -/
-example : stillN (.node (.tree none) 5 [.many none 1 [.prim ⟨3, 3⟩]]) .none [] (.node (.tree none) 5 [.many none 1 [.prim ⟨3, 3⟩]])
-    = false := by decide
+/-- a copy whose identifier is `==` but not identical is NOT unchanged any more: one `setPrim` -/
+example : (reconcileOps m3 (modl (.tree none) [assign (loc [] 0 (some 0)) (name (loc [0, 0] 0) 10)
+      (.node (loc [0, 0] 1) 1 [.prim ⟨11, 77⟩]), st 1, st 2])).length = 1 := by decide
+/-- `global a` unchanged (a list field holding an identifier): covered by `stillN` since the repair of F8, empty trace
+(before: one re-put per element, `no_change_false`) -/
+theorem no_change_scalar_elems :
+    reconcile (.node (.tree none) 5 [.many none 1 [.prim ⟨3, 3⟩]]) (.node (.tree none) 5 [.many none 1 [.prim ⟨3, 3⟩]])
+      = ⟨[], false⟩ :=
+  no_change _ _ (by decide)
+/-- ... and `def f(*, a, b=1)`: `kw_defaults = [None, 1]` in a plain list field -/
+example : reconcile (.node (.tree none) 6 [.many none 0 [.nil, name (loc [] 0 (some 1)) 4]])
+    (.node (.tree none) 6 [.many none 0 [.nil, name (loc [] 0 (some 1)) 4]]) = ⟨[], false⟩ :=
+  no_change _ _ (by decide)
+/-- a renamed identifier in the list is put (and only it) -/
+example : (reconcileOps (.node (.tree none) 5 [.many none 1 [.prim ⟨3, 3⟩, .prim ⟨4, 4⟩]])
+    (.node (.tree none) 5 [.many none 1 [.prim ⟨3, 3⟩, .prim ⟨9, 9⟩]])).length = 1 := by decide
 
 /-- `untouched_kept`: first statement untouched while a statement is inserted after it and the second one moved down
 (path `[0, 0]`: field `body`, element 0); the trace is not empty and no operation touches the statement -/
